@@ -12,6 +12,7 @@ pub uninterp spec fn sqrt_r(x: real) -> real;
 pub uninterp spec fn acos_r(x: real) -> real;
 pub uninterp spec fn pi_r() -> real;
 pub uninterp spec fn floor_r(x: real) -> int;
+pub uninterp spec fn ceil_r(x: real) -> int;
 /// x % y with the sign of x (Rust's f64 `%`), as a real function
 pub uninterp spec fn fmod_r(x: real, y: real) -> real;
 /// `+0.0` (as opposed to `-0.0`): the only place Theory M keeps a bit of IEEE information
@@ -74,7 +75,7 @@ impl F {
     pub fn powi(self, n: i32) -> (r: F) ensures r@ == powi_r(self@, n as int) { unimplemented!() }
     /// `x.ceil() as i64` (saturation of the cast is dropped: |x| < 2^63 assumed)
     #[verifier::external_body]
-    pub fn ceil_i64(x: F) -> (r: i64) ensures (r as real) >= x@, (r as real) - 1real < x@ { unimplemented!() }
+    pub fn ceil_i64(x: F) -> (r: i64) ensures r as int == ceil_r(x@), (r as real) >= x@, (r as real) - 1real < x@ { unimplemented!() }
     /// `x.floor() as i64`
     #[verifier::external_body]
     pub fn floor_i64(x: F) -> (r: i64) ensures (r as real) <= x@, (r as real) + 1real > x@ { unimplemented!() }
